@@ -431,6 +431,18 @@ class C20(Property):
                 viol("json-content", "output parses to %r, the label is %r"
                      % (str(parsed)[:300], str(want)[:300]), fmt)
             return
+        if got != exp and got is not None and "nan" in exp.lower() and \
+                len(got) == len(exp):
+            # a NaN hashes by identity, so two separately loaded modules may
+            # write the elements of a set holding one in another order:
+            # compare what the two texts denote instead
+            a = dialects.load("default", got)
+            b = dialects.load("default", exp)
+            if a.kind == b.kind == "ok" and core.canon(a.value) == \
+                    core.canon(b.value):
+                if out is not None:
+                    out.inc("probe.set-order-differs-because-of-nan")
+                return
         if got != exp:
             viol("translate-output-differs",
                  "-of %s wrote %r..., pvl.dumps with a fresh %s encoder "
